@@ -496,7 +496,7 @@ def explore(ctx):
         ctx.guard("diatonic steps from altered spellings", ctx.counter("diatonic_steps_from_altered_spelling"), 30 * 42 * 6)
         ctx.guard("memo histories", ctx.counter("memo_histories"), 900)
         if not ctx.counter("memo_cold_starts"):
-            ctx.note("mingus.core.keys._key_cache is not a dict on this tree: memo histories ran without a cold start")
+            ctx.note("memo histories ran without a cold start (module reload did not happen)")
 
 
 # Predicate for the case that Key('') -> IndexError is recorded as a known finding instead of being
